@@ -205,6 +205,8 @@ def run(pid, tier):
         # ---- 4. direction B: schedules chosen on the code side
         for i in range(nr):
             runs.append(P.random_run(rng, "r%d" % i, weights=WEIGHTS.get(pid)))
+        pre, preempt_total = preempt_runs(drv, sc, rng, 900 if tier == "quick" else 10 ** 6, pid, tier == "thorough")
+        runs += pre
         crash_total, crash_complete = 0, None
         if pid == "C06":
             cr, crash_total, crash_complete = crash_runs(drv, sc, rng, nc)
@@ -312,6 +314,7 @@ def run(pid, tier):
             drift_examples=[d[1] for d in drift[:3]],
             code_driven_runs=len(outs) - nwalks, crash_runs=len([r for r in runs if r.get("crash")]),
             crash_points_total=crash_total, crash_enumeration_complete=crash_complete,
+            single_preemption_runs=len(pre), single_preemption_space=preempt_total,
             events_validated=vstats["events"], trace_states=vstats["states"],
             model_actions_replayed=dict(actcount),
             invariants=P.PROP_INVS[pid], other_invariant_violations=len(others), specification_mutants=selftests,
@@ -328,6 +331,71 @@ def run(pid, tier):
         return 1 if nviol else 0
     finally:
         shutil.rmtree(sc, ignore_errors=True)
+
+
+def preempt_runs(drv, sc, rng, n, pid, full):
+    """Single-preemption enumeration on the code: for every ordered pair of calls (a by handle 1, b by handle 2), every initial
+    stack of 2-4 tables and every preemption point k: handle 1 performs its first k filesystem calls, then handle 2 runs its call
+    to completion, then handle 1 finishes - every scenario in which one call falls entirely into a window of another.
+    A dry run of every call tells where its windows are: `full` takes every k, otherwise the points at which the call does not
+    hold tables.list.lock after having held it (the merge window of a compaction), the points after a rename, and the first two.
+    Returns (runs, size of the space)."""
+    def calls(tg):
+        return [("add", lambda: tg.add()), ("addition", lambda: tg.addition()), ("compactall", lambda: {"op": "compactall"}),
+                ("c01", lambda: {"op": "compactrange", "first": 0, "last": 1}), ("c12", lambda: {"op": "compactrange", "first": 1, "last": 2}),
+                ("c23", lambda: {"op": "compactrange", "first": 2, "last": 3}), ("reopen", lambda: {"op": "reopen"}),
+                ("clean", lambda: {"op": "clean"}), ("reload", lambda: {"op": "reload"}), ("autoadd", lambda: tg.add())]
+    names = [nm for nm, _ in calls(P.TxnGen(random.Random(0)))]
+    # dry runs: the gate sequence of every call alone
+    dry = []
+    for initn in (2, 3, 4):
+        for na in names:
+            tg = P.TxnGen(random.Random(initn * 100 + 1))
+            init = [tg.add() for _ in range(initn)]
+            dry.append({"id": "d%d-%s" % (initn, na), "hash": "sha1", "nh": 1, "init": init, "preopen": True, "progs": {"1": [dict(calls(tg))[na]()]},
+                        "auto": {"1": na == "autoadd"}, "sched": [1] * 200, "tail": "seq", "seed": 1})
+    points = {}
+    for d, o in zip(dry, P.run_driver(drv, dry, sc)):
+        evs = [e for e in o["events"] if e["h"] == 1 and e["ev"] in ("fs", "call") and not (e["ev"] == "fs" and e["op"] == "close")]
+        # gates of handle 1 after the set-up open: index them from the call event of the program
+        start = max(i for i, e in enumerate(evs) if e["ev"] == "call")
+        gates = evs[start:]
+        ks, held, had, committed, after = set([2, 3]), False, False, False, 0
+        for gi, e in enumerate(gates):
+            k = gi + 1          # preempting BEFORE gate k+1 = after having performed k gates
+            if e["ev"] == "fs" and e.get("pk") == "listlock":
+                if e["op"] == "createexcl" and e["res"] == "ok":
+                    held, had = True, True
+                if e["op"] in ("remove", "rename") and e["res"] == "ok":
+                    held = False
+                    committed = committed or e["op"] == "rename"
+            if had and not held and not committed:
+                ks.add(k + 1)                       # the window in which the list lock was given up (merge phase of a compaction)
+            elif committed and after < 3:
+                ks.add(k + 1)                       # the first steps after the commit (removal of the inputs, reload)
+                after += 1
+            elif e["ev"] == "fs" and e["op"] == "rename":
+                ks.add(k + 1)
+        points[d["id"][1:]] = (sorted(k for k in ks if k <= len(gates) + 1), len(gates))
+    runs = []
+    i = 0
+    for initn in (2, 3, 4):
+        for na in names:
+            sel, ng = points["%d-%s" % (initn, na)]
+            for nb in names:
+                for k in (range(2, ng + 2) if full else sel):
+                    tg = P.TxnGen(random.Random(i * 17 + 3))
+                    init = [tg.add() for _ in range(initn)]
+                    ca = dict(calls(tg))[na]()
+                    cb = dict(calls(tg))[nb]()
+                    runs.append({"id": "p%d-%s-%s-%d" % (initn, na, nb, k), "hash": "sha1" if i % 3 else "s256", "nh": 2, "init": init, "preopen": True,
+                                 "progs": {"1": [ca], "2": [cb, {"op": "reload"}]}, "auto": {"1": na == "autoadd", "2": nb == "autoadd"},
+                                 "sched": [1] * k + [2] * 120 + [1] * 120, "tail": "seq", "seed": i})
+                    i += 1
+    total = len(runs)
+    if n < total:
+        runs = random.Random(rng.random()).sample(runs, n)
+    return runs, total
 
 
 def crash_scenarios():
